@@ -6,15 +6,21 @@ import subprocess, sys, os, json, re, glob
 V = os.path.dirname(os.path.dirname(os.path.abspath(__file__)))
 WT = '/tmp/seedrepo'
 def sh(*a, **k): return subprocess.run(list(a), capture_output=True, text=True, **k)
-only = sys.argv[1:]
+args = sys.argv[1:]
+shard = None
+if args and args[0] == '--shard':   # --shard k/n: the properties with index % n == k, in their own scratch checkout and build directory
+    k, n = args[1].split('/'); shard = (int(k), int(n)); args = args[2:]
+only = args
+if shard: WT = WT + str(shard[0])
 sh('git', '-C', '/repo', 'worktree', 'remove', '--force', WT); sh('rm', '-rf', WT)
 assert sh('git', '-C', '/repo', 'worktree', 'add', WT, 'HEAD').returncode == 0
 sh('cp', '/repo/Cargo.lock', WT + '/Cargo.lock')
-env = dict(os.environ, VERIF_REPO=WT, VERIF_SKIP_PROOFS='1')
-for d in sorted(glob.glob(os.path.join(V, 'seeded', '*'))):
+env = dict(os.environ, VERIF_REPO=WT, VERIF_SKIP_PROOFS='1', VERIF_ALT=(str(shard[0]) if shard else ''))
+for d in sorted(glob.glob(os.path.join(V, 'seeded', '*-m*'))):
     name = os.path.basename(d)
     if only and name not in only: continue
     prop = name.split('-')[0]
+    if shard and int(prop[1:]) % shard[1] != shard[0]: continue
     sh('git', '-C', WT, 'checkout', '--', '.'); sh('git', '-C', WT, 'clean', '-fdq', '-e', 'target', '-e', 'Cargo.lock')
     if sh('git', '-C', WT, 'apply', os.path.join(d, 'patch.diff')).returncode != 0:
         print(name, 'PATCH DOES NOT APPLY to current /repo HEAD'); continue
